@@ -325,6 +325,7 @@ func runScenario(sc string) (events []string, extra string) {
 	}
 	defer px.down()
 
+	var cutAtDone atomic.Bool
 	var closeAt atomic.Value // string: action name at which to call Close
 	closeAt.Store("")
 	holdCh := make(chan struct{})
@@ -345,6 +346,12 @@ func runScenario(sc string) (events []string, extra string) {
 			}
 		case "monitor.done":
 			tr.add("m.done")
+			if cutAtDone.CompareAndSwap(true, false) {
+				// the connection is lost between the report of Connected and the monitor's drain of c.sechanErr
+				tr.add("f.cutAtDone")
+				px.cut()
+				time.Sleep(60 * time.Millisecond) // let the dispatcher of the new channel report its EOF
+			}
 		}
 	})
 	defer opcua.VerifSetHook(nil)
@@ -502,6 +509,8 @@ func runScenario(sc string) (events []string, extra string) {
 			tr.add("f.read." + map[bool]string{true: "ok", false: "err"}[err == nil])
 		case st == "close":
 			doClose()
+		case st == "cutAt:done":
+			cutAtDone.Store(true)
 		case strings.HasPrefix(st, "closeAt:"):
 			// arm the trap: when the monitor reaches the top of that action it is held,
 			// Close is called and returns, then the monitor is released
@@ -631,6 +640,7 @@ func scenarios(o *h.Opts, rnd *h.Rand) []string {
 		"auto=0 ch #5 w30 rst50 waitclosed",
 		"auto=0 ch #6 w10 cut waitclosed",
 		"auto=1 ch w30 cut w60",
+		"auto=1 w30 cutAt:done cut w150",
 		"auto=1 w30 closeAt:createSecureChannel cut trap w100",
 		"auto=1 w30 closeAt:restoreSession cut trap w100",
 		"auto=1 w30 closeAt:restoreSubscriptions cut trap w100",
@@ -667,6 +677,44 @@ func scenarios(o *h.Opts, rnd *h.Rand) []string {
 		fixed = append(fixed, sc)
 	}
 	return fixed
+}
+
+// faultInsideLastRound: a fault was injected after the last dial of the last reconnect round and
+// before its m.done, and no Disconnected was reported afterwards: the error of the new connection
+// arrived before the monitor's drain at the end of the round
+func faultInsideLastRound(marks []string) bool {
+	lastDone := -1
+	for i, e := range marks {
+		if e == "m.done" {
+			lastDone = i
+		}
+	}
+	if lastDone < 0 {
+		return false
+	}
+	for _, e := range marks[lastDone:] {
+		if e == "st Disconnected" {
+			return false
+		}
+	}
+	lastDial := -1
+	for i := lastDone; i >= 0; i-- {
+		if marks[i] == "dial" {
+			lastDial = i
+			break
+		}
+	}
+	hi := lastDone + 3
+	if hi > len(marks) {
+		hi = len(marks)
+	}
+	for _, e := range marks[lastDial+1 : hi] {
+		switch e {
+		case "f.cut", "f.restart", "f.opnfail", "f.rst", "f.down", "f.cutAtDone":
+			return true
+		}
+	}
+	return false
 }
 
 func token(ev string) string { return strings.Replace(ev, " ", ":", 1) }
@@ -797,6 +845,7 @@ func main() {
 		last, closeEnded, userClosed := "Closed", false, false
 		lastSt := ""
 		faultSinceConnected := false
+		lostInDrain := false // the connection was cut while the monitor was between `Connected` and its drain
 		var chStates []string
 		chClosedBeforeClose, sawMonitorDisc := false, false
 		for _, e := range marks {
@@ -807,6 +856,8 @@ func main() {
 				if x == "Closed" && !userClosed {
 					chClosedBeforeClose = true
 				}
+			case e == "f.cutAtDone":
+				lostInDrain = true
 			case e == "f.cut" || e == "f.down" || e == "f.rst" || e == "f.stall" || e == "f.restart" || e == "f.opnfail":
 				faultSinceConnected = true
 			case e == "u.close":
@@ -856,7 +907,14 @@ func main() {
 			case strings.HasPrefix(e, "f.healed.notconnected"):
 				r.Fail(sc, "", "auto-reconnect on, server reachable again, but the client did not return to Connected within 15 s: "+e)
 			case e == "f.finalread.err":
-				r.Fail(sc, "", "client reports Connected after the faults but a Read fails: "+out.Extra)
+				sig := ""
+				if lostInDrain || faultInsideLastRound(marks) {
+					sig = "C25.error-lost-in-reconnect-drain"
+				}
+				r.Fail(sc, sig, "client reports Connected after the faults but a Read fails: "+out.Extra)
+				if sig != "" {
+					r.Confirm(sig, sc+" -> "+strings.Join(lts, " "))
+				}
 			case strings.HasPrefix(e, "f.goroutines "):
 				if f := strings.Fields(e); len(f) >= 2 && f[1] != "0" {
 					r.Fail(sc, "", "client goroutines still running 350 ms after Close: "+e)
